@@ -82,6 +82,7 @@ def run(ctx):
             n = sum(1 for _ in common.tree_nodes(r["ok"]))
             ctx.count("nodes", n)
             oracle(ctx, q, t)
+            parsing.parsed_again_after_edit(ctx, ctx.rng, q, t, oracle)
 
 
 def replay(ctx, rep):
